@@ -1066,7 +1066,14 @@ impl<'a> Run<'a> {
                 };
                 self.m.add_grant(ch, s, G { level, deleg: Some(pa), entry });
             }
-            self.m.deleg.insert((pa, ch), ss.clone());
+            // a repeated delegation extends the record of the pair
+            let rec = self.m.deleg.entry((pa, ch)).or_default();
+            for &s in &ss {
+                if !rec.contains(&s) {
+                    rec.push(s);
+                }
+            }
+            self.m.deleg_last.insert((pa, ch), ss.clone());
             // ceiling: the child never exceeds what was delegated / what the model allows
             for &s in &ss {
                 let name = self.sname(s);
